@@ -381,6 +381,18 @@ def run_points_case(case, rec):
             if policy == 'error' and misses:
                 rec.check(False, f"{fp}/error-policy-did-not-raise", label, 'NonIntersectingPoints', 'returned')
                 continue
+            if policy == 'fill' and misses and hits and labels == 'positions':
+                # the documented fill_value keyword: missed rows hold it instead of NaN, in every numeric variable
+                try:
+                    marked = lib(point_extraction.extract_dataframe, ds, frame, ('lon', 'lat'), missing_points='fill', fill_value=-999.0)
+                    for vt in truth.vars.values():
+                        if vt['kind'] != kind or vt['name'] not in marked.variables:
+                            continue
+                        got = np.asarray(marked[vt['name']].transpose(*vt['extras'], 'point').values, dtype='float64')
+                        rec.check(bool(np.all(got[..., misses] == -999.0)), f"{fp}/fill-value-ignored",
+                                  f"{label}, fill_value=-999: missed rows of {vt['name']}", -999.0, got[..., misses].ravel()[:4])
+                except LibraryRaised as err:
+                    rec.check(False, f"{fp}/dataframe-raised", f"{label}, fill_value=-999", 'dataset', str(err))
             rows = list(range(len(points))) if policy == 'fill' else hits
             ok = 'point' in result.dims and [v.item() if hasattr(v, 'item') else v for v in result['point'].values] == rows
             rec.check(ok, f"{fp}/dataframe-rows", f"{label}: rows kept", rows,
